@@ -1,9 +1,14 @@
 package main
 
 import (
+	"bytes"
 	"context"
+	"errors"
 	"fmt"
 	"math/rand"
+	"os"
+	"os/exec"
+	"path/filepath"
 	"strings"
 	"sync/atomic"
 	"time"
@@ -263,6 +268,96 @@ func c07PanicHold(o *Out, rig *srvRig, r *rand.Rand, id *int, cfg srvOpts) {
 		}
 		if bad != "" {
 			o.Violate("c07.panic-hold", "requests were served on other connections while the server was reporting a handler panic: "+bad, rp)
+			return
+		}
+	}
+}
+
+// ---- panics with awkward values, in a child process ---------------------------------------------
+//
+// "…and never kill the server": a handler may panic with any value – an error value, a typed-nil
+// error whose Error() faults.  If reporting such a panic takes the server process down, the harness
+// would go down with it; so the scenario runs in a child process (`harness c07child`) and the
+// parent judges the child's fate.
+
+func init() {
+	register("c07child", "child process of c07 (not a check of its own)", func(o *Out, r *rand.Rand) { c07Child() })
+}
+
+func c07Child() {
+	rig, err := newSrvRig(srvOpts{})
+	if err != nil {
+		fmt.Println("RIG-ERROR", err)
+		return
+	}
+	defer rig.close()
+	id := 8800000
+	for _, target := range [][2]string{{"Rt", "Do"}, {"Svc", "Do"}, {"Fn", "Do"}} {
+		for _, mode := range []string{"panic-error", "panic-nil-error"} {
+			p, err := dialRaw(rig.addr)
+			if err != nil {
+				fmt.Println("DIAL-ERROR", err)
+				return
+			}
+			id++
+			text := fmt.Sprintf("boom-%d", id)
+			p.send(rawReq{id: id, seq: uint64(id), path: target[0], method: target[1], ser: protocol.JSON, args: &SArgs{ID: id, Mode: mode, Text: text}})
+			msgs, _ := p.readAll(1, 2*time.Second)
+			if len(msgs) != 1 || msgs[0].Seq() != uint64(id) || msgs[0].MessageStatusType() != protocol.Error {
+				fmt.Printf("BAD %s.%s %s: %d responses\n", target[0], target[1], mode, len(msgs))
+				p.c.Close()
+				continue
+			}
+			if mode == "panic-error" && !strings.Contains(msgs[0].Metadata[protocol.ServiceError], text) {
+				fmt.Printf("BAD %s.%s %s: error text %q does not contain the panic value %q\n", target[0], target[1], mode, msgs[0].Metadata[protocol.ServiceError], text)
+			}
+			// the same connection and a new one are still served
+			id++
+			p.send(rawReq{id: id, seq: uint64(id), path: "Svc", method: "Do", ser: protocol.JSON, args: &SArgs{ID: id, Mode: "ok"}})
+			more, _ := p.readAll(1, 2*time.Second)
+			if len(more) != 1 || more[0].MessageStatusType() == protocol.Error {
+				fmt.Printf("BAD %s.%s %s: the connection was not served afterwards\n", target[0], target[1], mode)
+			}
+			p.c.Close()
+		}
+	}
+	fmt.Println("CHILD-DONE")
+}
+
+func c07AwkwardPanics(o *Out) {
+	cmd := exec.Command(os.Args[0], "c07child", "-out", filepath.Join(os.TempDir(), fmt.Sprintf("verif-c07child-%d", os.Getpid())))
+	var buf bytes.Buffer
+	cmd.Stdout = &buf
+	cmd.Stderr = &buf
+	done := make(chan error, 1)
+	if err := cmd.Start(); err != nil {
+		o.Note("c07child could not be started: %v", err)
+		return
+	}
+	go func() { done <- cmd.Wait() }()
+	var err error
+	select {
+	case err = <-done:
+	case <-time.After(60 * time.Second):
+		cmd.Process.Kill()
+		err = errors.New("timeout")
+	}
+	os.RemoveAll(filepath.Join(os.TempDir(), fmt.Sprintf("verif-c07child-%d", os.Getpid())))
+	out := buf.String()
+	o.Eval("awkward-panics child", true)
+	o.Count("awkward-panics.child-runs")
+	tail := out
+	if len(tail) > 3000 {
+		tail = tail[len(tail)-3000:]
+	}
+	rp := map[string]any{"scenario": "handlers (router, reflected method, registered function) panic with an error value and with a typed-nil error whose Error() faults; then the same connection and a new one are used again", "child_output_tail": tail}
+	if err != nil || !strings.Contains(out, "CHILD-DONE") {
+		o.Violate("c07.server-died", fmt.Sprintf("the server process did not survive a handler panic with an awkward value (child: %v)", err), rp)
+		return
+	}
+	for _, l := range strings.Split(out, "\n") {
+		if strings.HasPrefix(l, "BAD ") {
+			o.Violate("c07.awkward-panic", "a handler panic with an error value was not reported to its caller, or the server stopped serving: "+l[4:], rp)
 			return
 		}
 	}
